@@ -6,14 +6,14 @@ variable {E L : Type} [DecidableEq E]
 /-- Hoare-style rule for the probing loop.  `Inv done st`: invariant after the encodings `done`
     (in probe order) have been processed.  `Q`: what is to be shown about the outcome. -/
 theorem detectLoop_rule {W : World E L} {T : Tables E} {sort : Sorter E L} {c : Ctx E} {incl excl : List E}
-    (Inv : List E → LoopState E L → Prop) (Q : Outcome E L → Prop)
-    (hskip : ∀ done st e, Inv done st →
+    (Inv : List E → LoopState E L → Prop) (Q : Outcome E L → Prop) (S : E → Prop)
+    (hskip : ∀ done st e, S e → Inv done st →
       (allowed incl excl e = false ∨ ProbeShape W T c st.soft e .needsBom ∨
         ProbeShape W T c st.soft e .hardFail ∨ ∃ f, ProbeShape W T c st.soft e (.similarSkip f) ∧
           probe W T c st.soft e = .ok (.similarSkip f)) → Inv (done ++ [e]) st)
-    (hsoft : ∀ done st e fb, Inv done st → allowed incl excl e = true →
+    (hsoft : ∀ done st e fb, S e → Inv done st → allowed incl excl e = true →
       ProbeShape W T c st.soft e (.softFail fb) → Inv (done ++ [e]) (softUpdate T c st e fb))
-    (hacc : ∀ done st e m, Inv done st → allowed incl excl e = true →
+    (hacc : ∀ done st e m, S e → Inv done st → allowed incl excl e = true →
       ProbeShape W T c st.soft e (.accepted m) →
       (exitCond c e m.chaos = false →
         Inv (done ++ [e]) { st with results := append sort T.tooBig st.results m }) ∧
@@ -21,34 +21,36 @@ theorem detectLoop_rule {W : World E L} {T : Tables E} {sort : Sorter E L} {c : 
         Q (.exit x)))
     (hdone : ∀ done st, Inv done st → Q (.done st)) :
     ∀ (es : List E) (done : List E) (st : LoopState E L) (out : Outcome E L),
-      Inv done st → detectLoop W T sort c incl excl es st = .ok out → Q out := by
+      (∀ e ∈ es, S e) → Inv done st → detectLoop W T sort c incl excl es st = .ok out → Q out := by
   intro es
   induction es with
   | nil =>
-    intro done st out hinv h
+    intro done st out _ hinv h
     simp only [detectLoop] at h
     cases h
     exact hdone done st hinv
   | cons e es ih =>
-    intro done st out hinv h
+    intro done st out hS hinv h
+    have hSe : S e := hS e (by simp)
+    have hS' : ∀ x ∈ es, S x := fun x hx => hS x (by simp [hx])
     rw [detectLoop] at h
     split at h
     · rename_i hal
-      exact ih (done ++ [e]) st out (hskip done st e hinv (Or.inl (by simpa using hal))) h
+      exact ih (done ++ [e]) st out hS' (hskip done st e hSe hinv (Or.inl (by simpa using hal))) h
     · rename_i hal
       have hal' : allowed incl excl e = true := by simpa using hal
       split at h
       · cases h
       · rename_i hp
-        exact ih _ st out (hskip done st e hinv (Or.inr (Or.inl (probe_shape hp)))) h
+        exact ih _ st out hS' (hskip done st e hSe hinv (Or.inr (Or.inl (probe_shape hp)))) h
       · rename_i hp
-        exact ih _ st out (hskip done st e hinv (Or.inr (Or.inr (Or.inl (probe_shape hp))))) h
+        exact ih _ st out hS' (hskip done st e hSe hinv (Or.inr (Or.inr (Or.inl (probe_shape hp))))) h
       · rename_i f hp
-        exact ih _ st out (hskip done st e hinv (Or.inr (Or.inr (Or.inr ⟨f, probe_shape hp, hp⟩)))) h
+        exact ih _ st out hS' (hskip done st e hSe hinv (Or.inr (Or.inr (Or.inr ⟨f, probe_shape hp, hp⟩)))) h
       · rename_i fb hp
-        exact ih _ _ out (hsoft done st e fb hinv hal' (probe_shape hp)) h
+        exact ih _ _ out hS' (hsoft done st e fb hSe hinv hal' (probe_shape hp)) h
       · rename_i m hp
-        have hA := hacc done st e m hinv hal' (probe_shape hp)
+        have hA := hacc done st e m hSe hinv hal' (probe_shape hp)
         split at h
         · rename_i hex
           split at h
@@ -57,6 +59,6 @@ theorem detectLoop_rule {W : World E L} {T : Tables E} {sort : Sorter E L} {c : 
             cases h
             exact hA.2 hex x hx
         · rename_i hex
-          exact ih _ _ out (hA.1 (by simpa using hex)) h
+          exact ih _ _ out hS' (hA.1 (by simpa using hex)) h
 
 end Charset
